@@ -17,6 +17,7 @@ import copy
 import random as _random
 
 from . import common, gen, project, c05
+from .exc import exc_name
 
 
 def snap(F):
@@ -120,7 +121,7 @@ def transform_records(ck):
                     G, B = apply(kind, k, C, F, rng)
                     rec["outcome"] = "ok"
                 except Exception as e:
-                    rec.update({"outcome": type(e).__name__, "after": snap(F), "after_mut": snap(F), "out_header": [],
+                    rec.update({"outcome": exc_name(e), "after": snap(F), "after_mut": snap(F), "out_header": [],
                                 "same_object": False, "desc_out": []})
                     recs.append(rec)
                     break
@@ -163,7 +164,7 @@ def arg_records(ck):
             call()
             rec["outcome"] = "ok"
         except Exception as e:
-            rec["outcome"] = type(e).__name__
+            rec["outcome"] = exc_name(e)
         rec["after"] = arg_snap()
         recs.append(rec)
 
